@@ -304,6 +304,12 @@ def window_lemma_unit(res):
     return res
 
 
+def _node_by_lineno():
+    # the members of a reported cycle are looked up by line number (line numbers may have gaps: blank lines, --lines 1-3,6-9)
+    from .c16 import node_by_lineno_unit
+    return node_by_lineno_unit
+
+
 def units(tier):
     from .c16 import partition_unit, extend_path_unit, postprocess_unit, search_agreement_unit
     from .c13 import lcd_list_unit, combined_view_unit
@@ -316,6 +322,7 @@ def units(tier):
         Unit("C05/loopcarried_dependencies(LCD list rows)", lcd_list_unit, "Pb", [(FE, "Frontend.loopcarried_dependencies")], decisive=False),
         Unit("C05/check_for_loopcarried_dep/partition(kernels >= 50 lines)", partition_unit, "P", [(KDG, "KernelDG.check_for_loopcarried_dep")]),
         Unit("C05/_extend_path", extend_path_unit, "P", [(KDG, "KernelDG._extend_path")]),
+        Unit("C05/_get_node_by_lineno(the instruction that HAS the line number, whatever its position)", _node_by_lineno(), "P", [(KDG, "KernelDG._get_node_by_lineno")]),
         bounded_unit("C05/parallel-search-equals-sequential", "c16_parallel", [(KDG, "KernelDG.check_for_loopcarried_dep")], timeout=1800),
         Unit("C05/KernelDG.__init__+get_loopcarried_dependencies(wiring)", kdg_wiring_unit, "P", [(KDG, "KernelDG.__init__"), (KDG, "KernelDG.get_loopcarried_dependencies")]),
         Unit("C05/check_for_loopcarried_dep/doubling(any kernel length)", doubling_any_unit, "P", [(KDG, "KernelDG.check_for_loopcarried_dep")]),
